@@ -411,6 +411,99 @@ let run_show (src : string) : string =
   in
   tree ^ " " ^ res
 
+(* ---- hand-built trees (text in the format of tree_text) ---- *)
+let parse_tree_text (s : string) : M.node =
+  let n = String.length s in
+  let rec node i : M.node * int =
+    assert (s.[i] = '(');
+    let j = ref (i + 1) and depth = ref 0 in
+    (try
+       while !j < n do
+         (match s.[!j] with
+          | '(' -> incr depth
+          | ')' when !depth > 0 -> decr depth
+          | ')' | ' ' when !depth = 0 -> raise Exit
+          | _ -> ());
+         incr j
+       done
+     with Exit -> ());
+    let opname = String.sub s (i + 1) (!j - i - 1) in
+    let starts p = String.length opname >= String.length p && String.sub opname 0 (String.length p) = p in
+    let after p = String.sub opname (String.length p) (String.length opname - String.length p) in
+    let op =
+      if starts "Const:" then M.OConst (parse_value (after "Const:"))
+      else if starts "Write:" then M.OVariableIdentifierWrite (str_of_hex (after "Write:"))
+      else if starts "Read:" then M.OVariableIdentifierRead (str_of_hex (after "Read:"))
+      else if starts "Fn:" then M.OFunctionIdentifier (str_of_hex (after "Fn:"))
+      else
+        match opname with
+        | "RootNode" -> M.ORootNode | "Add" -> M.OAdd | "Sub" -> M.OSub | "Neg" -> M.ONeg | "Mul" -> M.OMul | "Div" -> M.ODiv
+        | "Mod" -> M.OMod | "Exp" -> M.OExp | "Eq" -> M.OEq | "Neq" -> M.ONeq | "Gt" -> M.OGt | "Lt" -> M.OLt | "Geq" -> M.OGeq
+        | "Leq" -> M.OLeq | "And" -> M.OAnd | "Or" -> M.OOr | "Not" -> M.ONot | "Assign" -> M.OAssign | "AddAssign" -> M.OAddAssign
+        | "SubAssign" -> M.OSubAssign | "MulAssign" -> M.OMulAssign | "DivAssign" -> M.ODivAssign | "ModAssign" -> M.OModAssign
+        | "ExpAssign" -> M.OExpAssign | "AndAssign" -> M.OAndAssign | "OrAssign" -> M.OOrAssign | "Tuple" -> M.OTuple
+        | "Chain" -> M.OChain | o -> failwith ("operator " ^ o)
+    in
+    let k = ref !j and children = ref [] in
+    while s.[!k] <> ')' do
+      assert (s.[!k] = ' ');
+      let c, k' = node (!k + 1) in
+      children := c :: !children;
+      k := k'
+    done;
+    (M.Node (op, List.rev !children), !k + 1)
+  in
+  let t, k = node 0 in
+  assert (k = n);
+  t
+
+let run_hand (text : string) : string =
+  let n = parse_tree_text text in
+  let set c (k, v) = match M.set_value c (s_of k) v with M.Ok c' -> c' | _ -> c in
+  let ctx =
+    List.fold_left set M.empty_hashmap
+      [ ("a", M.VInt (z_of_i64 3L)); ("b", M.VFloat (float_of_hex "4004000000000000")); ("c", M.VString (s_of "xy"));
+        ("x", M.VBool true); ("y", M.VTuple [ M.VInt (z_of_i64 1L); M.VInt (z_of_i64 2L) ]) ]
+  in
+  let setf c (k, l) = match M.set_function c (s_of k) (M.apply_libfn (s_of k) l) with M.Ok c' -> c' | _ -> c in
+  let ctx = List.fold_left setf ctx [ ("f", M.LId); ("h", M.LFail (s_of "boom")) ] in
+  let logtext lg = String.concat "," (List.map (fun (f, v) -> hex_of_str f ^ "(" ^ value_text v ^ ")") lg) in
+  let ro, rolog = M.eval_ro oracle n ctx [] in
+  let (mt, c2), mtlog = M.eval_mut oracle n ctx [] in
+  let vars = List.map (fun (k, v) -> k ^ "=" ^ v) (List.sort compare (List.map (fun (k, v) -> (hex_of_str k, value_text v)) c2.M.c_vars)) in
+  let nodes = match M.iter_all n with M.Ok l -> l | M.Err _ -> [] | M.Panic p -> raise (Model_panic (int_of_n p)) in
+  let ops = String.concat "," (List.map (fun x -> op_text (M.nop x)) nodes) in
+  let strs r = match r with M.Ok l -> String.concat "," (List.map hex_of_str l) | _ -> "?" in
+  Printf.sprintf "same=1 ro=%s rolog[%s] mut=%s vars{%s} mutlog[%s] nodes[%s] ops[%s] ids[%s] vids[%s] show=%s"
+    (outcome_text value_text ro) (logtext rolog) (outcome_text value_text mt) (String.concat "," vars) (logtext mtlog) ops ops
+    (strs (M.iter_identifiers n)) (strs (M.iter_variable_identifiers n)) (hex_of_str (M.node_fmt fmt_oracle n))
+
+let run_val (text : string) : string =
+  let v = parse_value text in
+  let b x = if x then "1" else "0" in
+  let r f o = outcome_text f o in
+  let tuple l = value_text (M.VTuple l) in
+  String.concat " "
+    [ "is=" ^ b (M.is_string v) ^ b (M.is_int v) ^ b (M.is_float v) ^ b (M.is_number v) ^ b (M.is_boolean v) ^ b (M.is_tuple v) ^ b (M.is_empty v);
+      "str=" ^ r (fun s -> value_text (M.VString s)) (M.as_string v);
+      "int=" ^ r (fun i -> value_text (M.VInt i)) (M.as_int v);
+      "float=" ^ r (fun f -> value_text (M.VFloat f)) (M.as_float v);
+      "num=" ^ r (fun f -> value_text (M.VFloat f)) (M.as_number v);
+      "bool=" ^ r (fun x -> value_text (M.VBool x)) (M.as_boolean v);
+      "tup=" ^ r tuple (M.as_tuple v);
+      "fix0=" ^ r tuple (M.as_fixed_len_tuple v (n_of_int 0));
+      "fix2=" ^ r tuple (M.as_fixed_len_tuple v (n_of_int 2));
+      "rng13=" ^ r tuple (M.as_ranged_len_tuple v (n_of_int 1) (n_of_int 3));
+      "rng00=" ^ r tuple (M.as_ranged_len_tuple v (n_of_int 0) (n_of_int 0));
+      "empty=" ^ r (fun () -> "") (M.as_empty v);
+      "strfrom=" ^ hex_of_str (M.str_from oracle v);
+      "tfs=" ^ r (fun s -> value_text (M.VString s)) (M.try_from_string v);
+      "tfb=" ^ r (fun x -> value_text (M.VBool x)) (M.try_from_bool v);
+      "tft=" ^ r tuple (M.try_from_tuple v);
+      "tfe=" ^ r (fun () -> "") (M.try_from_unit v);
+      "type=" ^ type_text (M.type_of v);
+      "eq=" ^ b (M.value_eqb v v) ]
+
 let run_case (line : string) : string =
   match split_on '\t' line with
   | id :: kind :: rest -> (
@@ -425,6 +518,8 @@ let run_case (line : string) : string =
           | "SCRIPT", [ k ] -> run_script k ""
           | "ITER", [ src ] -> run_iter src
           | "ITER", [] -> run_iter ""
+          | "HAND", [ t ] -> run_hand t
+          | "VAL", [ v ] -> run_val v
           | "SHOW", [ src ] -> run_show src
           | "SHOW", [] -> run_show ""
           | _ -> failwith ("bad case " ^ line)
